@@ -52,6 +52,7 @@ class PEval:
         self.bind = dict(bind or {})   # local/param name in the root function -> value (immune to kills)
         self.sticky = set()
         self.call_values = {}
+        self.expr_values = {}      # id(expression node) -> value supplied by the rule (an operand it enumerates)
         self.sticky_once = None
         self.head = None   # value of the next unread source byte (head-byte abstraction of Source::peek/read)
         for v in facts.vars:
@@ -73,6 +74,7 @@ class PEval:
         """Concrete integer value of expression e under env, or None."""
         if e is None: return UNK
         if 'ev' in e: return e['ev']
+        if self.expr_values and id(e) in self.expr_values: return self.expr_values[id(e)]
         k = e.get('k')
         if k in ('IntegerLiteral', 'CharacterLiteral', 'CXXBoolLiteralExpr'): return e.get('v')
         if k == 'ParenExpr' or k == 'CXXDefaultArgExpr': return self.ev(e.get('sub'), env, depth)
